@@ -65,6 +65,18 @@ def gen_cases(tier, seed):
             cases.append(common.mk(content, tag='triple', want=[v, lv, m], **kw))
     # automatically chosen symbols
     cases += common.random_cases(rng, 600 if tier == 'quick' else 30000, heavy=True)
+    # always: every combination of two to four different modes in one symbol (the reported mode of such a symbol is None),
+    # several parts of one mode (merged: one segment, that mode), empty parts
+    import itertools
+    sample = {'numeric': '123', 'alphanumeric': 'AB-', 'byte': 'abc', 'kanji': '点茗', 'hanzi': ('汉字', 13)}
+    for r in (2, 3, 4, 5):
+        for combo in itertools.permutations(sample, r) if r < 4 else itertools.combinations(sample, r):
+            if r == 3 and rng.random() < 0.5 and tier == 'quick':
+                continue
+            cases.append(common.mk([sample[m_] for m_ in combo], tag='mode-mix', fn=rng.choice(['make', 'make_qr']), micro=False) if False else
+                         common.mk([sample[m_] for m_ in combo], tag='mode-mix', fn='make_qr'))
+    for parts in (['12', '345'], ['AB', 'CD', 'EF'], ['abc', 'def'], ['', 'ABC'], ['123', ''], [('汉', 13), ('字', 13)], ['点', '茗']):
+        cases.append(common.mk(parts, tag='mode-mix'))
     rng.shuffle(cases)
     return cases
 
